@@ -169,10 +169,10 @@ Entitle(a, recs) ==
   LET live == {e \in recs : Has(a.rt, e.r) /\ a.rt[e.r].st # "canc"} IN
   [a EXCEPT !.exp = @ \cup {e \in live : Owed(a, e)},
             !.opt = @ \cup {e \in live : ~Owed(a, e)},
-            !.never = @ \cup {[n |-> e.n, tr |-> e.tr, p |-> "C04"] : e \in recs \ live}]
+            !.never = @ \cup {[n |-> e.n, tr |-> e.tr, r |-> e.r, p |-> "C04"] : e \in recs \ live}]
 \* copies in unsampled traces must never show up (C05)
 Unsampled(a, names, lin) ==
-  [a EXCEPT !.never = @ \cup {[n |-> n, tr |-> lin[i].tr, p |-> "C05"] : n \in names, i \in {x \in DOMAIN lin : ~lin[x].smp}}]
+  [a EXCEPT !.never = @ \cup {[n |-> n, tr |-> lin[i].tr, r |-> lin[i].r, p |-> "C05"] : n \in names, i \in {x \in DOMAIN lin : ~lin[x].smp}}]
 SpanNames(ents) == {ents[j].n : j \in {y \in DOMAIN ents : ents[y].k = "span"}}
 
 \* at the return of the call made by thread t: what it entitled becomes due, or optional when one of
@@ -355,7 +355,7 @@ CallCancel(a, e) ==
   IF ~a.cfg.cancelable /\ SpanLive(a, e.h) /\ Has(a.rt, e.h) THEN [a EXCEPT !.rt[e.h].dcancel = TRUE]
   ELSE IF a.cfg.cancelable /\ SpanLive(a, e.h) /\ Has(a.rt, e.h) /\ a.rt[e.h].st = "open" /\ a.rt[e.h].smp
   THEN [a EXCEPT !.rt[e.h].st = "canc",
-                 !.never = @ \cup {[n |-> x.n, tr |-> x.tr, p |-> "C04"] : x \in {y \in a.exp \cup a.opt : y.r = e.h}},
+                 !.never = @ \cup {[n |-> x.n, tr |-> x.tr, r |-> x.r, p |-> "C04"] : x \in {y \in a.exp \cup a.opt : y.r = e.h}},
                  !.exp = {x \in @ : x.r # e.h}, !.opt = {x \in @ : x.r # e.h}]
   ELSE a
 
@@ -439,7 +439,8 @@ TakeRecord(a, rec) ==
   IF C = {}
   THEN \* nothing is owed under that name in that trace: say why
        IF \E x \in a.never : x.n = rec.name /\ x.tr = rec.trace
-       THEN Viol(a, (CHOOSE x \in a.never : x.n = rec.name /\ x.tr = rec.trace).p, "record-of-suppressed-trace", rec)
+       THEN LET x == CHOOSE x \in a.never : x.n = rec.name /\ x.tr = rec.trace IN
+            ViolK(a, x.p, "record-of-suppressed-trace", rec, IF x.p = "C04" /\ Has(a.rt, x.r) /\ a.rt[x.r].cid \in a.cut THEN "cut" ELSE None)
        ELSE IF \E x \in a.dl : x.n = rec.name /\ x.tr = rec.trace
        THEN Viol(a, IF a.cfg.cancelable THEN "C03" ELSE "C01", "delivered-again", rec)
        ELSE IF \E x \in a.exp \cup a.opt \cup a.dl : x.n = rec.name
@@ -483,7 +484,7 @@ BatchRules(a0, a, got) ==
       go(st, rs) == IF rs = {} THEN st
                     ELSE LET r == CHOOSE x \in rs : TRUE
                              b == bad(r)
-                             k == IF b = "incomplete" /\ a0.rt[r].cid \in a0.cut THEN "cut" ELSE None
+                             k == IF b \in {"incomplete", "without-root-record"} /\ a0.rt[r].cid \in a.cut THEN "cut" ELSE None
                              st1 == IF b = "ok" THEN st ELSE ViolK(st, "C03", b, [root |-> r], k)
                          IN go([st1 EXCEPT !.rt[r].done = TRUE, !.exp = {x \in @ : x.r # r}, !.opt = {x \in @ : x.r # r},
                                            !.dl = @ \cup {[n |-> x.n, tr |-> x.tr, r |-> x.r, par |-> x.par, ci |-> x.ci] : x \in {y \in st1.opt : y.r = r}}],
